@@ -1,3 +1,4 @@
 SPECIFICATION TraceSpec
 POSTCONDITION TraceAccepted
 CHECK_DEADLOCK FALSE
+CONSTANT Want = {"ALL"}
